@@ -226,3 +226,106 @@ def witness_facts(name, source, config="FULL", th=None, hir=False, extra_args=()
     except OSError:
         pass
     return facts, r.stdout, r.returncode
+
+
+# ---------------------------------------------------------------------------
+# E6 — accept / reject harness (stable rustc, JSON diagnostics)
+# ---------------------------------------------------------------------------
+def stable_rmeta(th=None):
+    """`cargo check` konst once with the default (stable) toolchain and FULL features; returns (rmeta, deps dir)"""
+    th = th or tree_hash()
+    d = os.path.join(WORK, "facts", th, "STABLE")
+    done = os.path.join(d, "DONE")
+    if not os.path.exists(done):
+        with Lock("stable"):
+            if not os.path.exists(done):
+                _prune(th)
+                shutil.rmtree(d, ignore_errors=True)
+                os.makedirs(d)
+                env = base_env()
+                env["CARGO_TARGET_DIR"] = os.path.join(d, "target")
+                env["RUSTFLAGS"] = "-Awarnings"
+                r = subprocess.run(["cargo", "check", "--offline", "-p", "konst", "--features", "rust_latest_stable alloc"],
+                                   cwd=REPO, env=env, stdout=subprocess.PIPE, stderr=subprocess.STDOUT, text=True)
+                if r.returncode != 0:
+                    raise BuildError("STABLE", r.stdout)
+                with open(done, "w") as fh:
+                    fh.write("ok\n")
+    deps = os.path.join(d, "target", "debug", "deps")
+    c = glob.glob(os.path.join(deps, "libkonst-*.rmeta"))
+    if len(c) != 1:
+        raise SystemExit("expected exactly one stable libkonst rmeta, found %d" % len(c))
+    return c[0], deps
+
+
+def _expansion_chain(span):
+    out = []
+    e = span.get("expansion")
+    while e:
+        out.append(e.get("macro_decl_name"))
+        e = e["span"].get("expansion")
+    return out
+
+
+def compile_program(name, source, th=None):
+    """compile one program against konst with stable rustc; -> {"ok": bool, "errors": [{code, message, macros, labels}]}"""
+    th = th or tree_hash()
+    rm, deps = stable_rmeta(th)
+    key = hashlib.sha256(source.encode()).hexdigest()[:20]
+    wd = os.path.join(WORK, "facts", th, "programs")
+    os.makedirs(wd, exist_ok=True)
+    cache = os.path.join(wd, key + ".json")
+    if os.path.exists(cache):
+        with open(cache) as fh:
+            return json.load(fh)
+    src = os.path.join(wd, key + ".rs")
+    with open(src, "w") as fh:
+        fh.write(source)
+    env = base_env()
+    cmd = ["rustc", "--edition", "2021", "--crate-name", "prog", "--crate-type", "lib", "--emit=metadata",
+           "-o", os.path.join(wd, key + ".rmeta"), "--error-format=json", "-Awarnings",
+           "-L", "dependency=" + deps, "--extern", "konst=" + rm, src]
+    r = subprocess.run(cmd, env=env, stdout=subprocess.PIPE, stderr=subprocess.PIPE, text=True)
+    errors = []
+    for line in r.stderr.splitlines():
+        if not line.startswith("{"):
+            continue
+        try:
+            d = json.loads(line)
+        except ValueError:
+            continue
+        if d.get("level") != "error" or d.get("message", "").startswith("aborting due to"):
+            continue
+        macros = []
+        labels = []
+        for sp in d.get("spans", []):
+            macros.extend(m for m in _expansion_chain(sp) if m)
+            if sp.get("label"):
+                labels.append(sp["label"])
+        for ch in d.get("children", []):
+            labels.append(ch.get("message", ""))
+        errors.append({"code": (d.get("code") or {}).get("code"), "message": d["message"], "macros": macros, "labels": labels})
+    res = {"ok": r.returncode == 0, "errors": errors}
+    with open(cache, "w") as fh:
+        json.dump(res, fh)
+    for ext in (".rmeta", ".rs"):
+        try:
+            os.remove(os.path.join(wd, key + ext))
+        except OSError:
+            pass
+    return res
+
+
+def compile_many(programs, th=None, workers=16):
+    """programs: [(name, source)] -> list of results in order"""
+    from concurrent.futures import ThreadPoolExecutor
+    th = th or tree_hash()
+    stable_rmeta(th)
+    uniq = {}
+    for name, src in programs:
+        uniq.setdefault(src, name)
+    items = list(uniq.items())
+    with ThreadPoolExecutor(max_workers=workers) as ex:
+        res = list(ex.map(lambda it: compile_program(it[1], it[0], th), items))
+    by_src = {src: r for (src, _), r in zip(items, res)}
+    return [by_src[src] for _, src in programs]
